@@ -671,10 +671,17 @@ var c09Variants2 = map[string][]string{
 	"C10": {"listing-fault", ""},
 }
 
+// c09Variants3: kinds on the case indices 2, 10, 18, ...
+var c09Variants3 = map[string][]string{
+	// several branch tips in one exchange, the stream dying on any object boundary
+	"C09": {"tips-cut"},
+}
+
 func init() {
 	syncVariantGens["known-blocks"] = c09GenKnownBlocks
 	syncVariantGens["colliding-dsts"] = c09GenCollidingDsts
 	syncVariantGens["boundary-cut"] = c09GenBoundaryCut
+	syncVariantGens["tips-cut"] = c09GenTipsCut
 	syncVariantGens["listing-fault"] = c10GenListingFault
 	syncVariantGens["multi-depth"] = genMultiDepth
 	syncVariantGens["sender-fault"] = genSenderFault
@@ -1584,7 +1591,8 @@ func c09GenCollidingDsts(e *syncEnv) Res {
 // its first. A fetch that reports success after such a cut must still have everything.
 type c09CutSpec struct {
 	pack  int   // the pack-th packfile response that holds at least two objects is the one cut
-	where int   // 0: before its last object; 1: after its first object
+	where int   // 0: before its last object; 1: after its first object; 2: after its j-th object, j = pick over all objects but the last
+	pick  float64
 	err   error // what the client's read returns at the cut
 	seen  int
 	fired bool
@@ -1693,6 +1701,80 @@ func c09GenBoundaryCut(e *syncEnv) Res {
 	}
 	in.Fault = fmt.Sprintf("packfile response number %d with two or more objects ends %s with %s",
 		spec.pack, []string{"before its last object", "after its first object"}[spec.where], what)
+	run := e.run()
+	run.arm = func() { c09SetBoundaryCut(spec) }
+	run.disarm = func() { c09SetBoundaryCut(nil) }
+	run.fired = func() bool { return spec.fired }
+	in.RefspecForce = true
+	return run.do([]string{"fetch", "origin", "+refs/heads/*:refs/remotes/origin/*"})
+}
+
+// --- tips-cut: a fetch of several branch tips whose transfer dies on an object boundary ------------
+//
+// The remote has two or three branches, each with 0..2 commits of its own on top of a shared base
+// (which the local repository has cloned, or not); all of them are fetched in one exchange, so the
+// stream carries the history of one tip, complete, followed by that of the next. The connection
+// dies on ANY object boundary of the first (or second) packfile response that holds two or more
+// objects - between a block and its table, a table and its commit, or one tip's last object and the
+// next tip's first - with the error of a short body (the command fails and is run again) or with an
+// HTTP/2 stream reset (the command negotiates again by itself). However much of the stream arrived
+// before the cut, a fetch that then reports success has every updated ref's history with its tables.
+func c09GenTipsCut(e *syncEnv) Res {
+	r, in := e.r, e.in
+	slot := in.Slot
+	in.Action, in.Relation = "fetch", "multi-branch"
+	in.MaxPack = []uint64{0, 0, 5000, 700}[r.Intn(4)]
+	if res := e.serve(e.sdb); res != nil {
+		return res
+	}
+	defer e.srv.Close()
+	for i := 1 + r.Intn(2); i > 0; i-- {
+		if err := e.commit("main", "base"); err != nil {
+			return Err("server-commit")
+		}
+	}
+	if slot%3 != 2 {
+		if res := e.cli("pull", "main", "origin", "refs/heads/main:refs/remotes/origin/main", "--set-upstream"); res != nil {
+			return res
+		}
+	}
+	base, _ := ref.GetHead(e.srs, "main")
+	names := []string{"dev", "zeta", "alpha"}
+	r.Shuffle(len(names), func(i, j int) { names[i], names[j] = names[j], names[i] })
+	branches := append([]string{"main"}, names[:1+r.Intn(2)]...)
+	idle := -1 // at most one branch brings nothing of its own
+	if r.Intn(4) == 0 {
+		idle = r.Intn(len(branches))
+	}
+	for i, b := range branches {
+		if b != "main" {
+			if err := e.point(b, ancestorOf(e.sdb, base, r.Intn(2))); err != nil {
+				return Err("server-branch")
+			}
+		}
+		if i == idle {
+			continue
+		}
+		for j := 1 + r.Intn(2); j > 0; j-- {
+			if err := e.commit(b, b); err != nil {
+				return Err("server-commit-branch")
+			}
+		}
+	}
+	spec := &c09CutSpec{pack: 1, where: 2, pick: r.Float64(), err: io.ErrUnexpectedEOF}
+	if in.MaxPack != 0 && r.Intn(2) == 0 {
+		spec.pack = 2
+	}
+	if r.Intn(5) == 0 {
+		spec.where = r.Intn(2)
+	}
+	what := "unexpected EOF (the body is shorter than announced)"
+	if slot%2 == 0 {
+		spec.err = fmt.Errorf("stream error: stream ID 7; INTERNAL_ERROR; received from peer")
+		what = "an HTTP/2 stream reset"
+	}
+	in.Fault = fmt.Sprintf("packfile response number %d with two or more objects ends %s with %s", spec.pack,
+		[]string{"before its last object", "after its first object", fmt.Sprintf("on the object boundary at %.3f of its objects", spec.pick)}[spec.where], what)
 	run := e.run()
 	run.arm = func() { c09SetBoundaryCut(spec) }
 	run.disarm = func() { c09SetBoundaryCut(nil) }
@@ -1825,6 +1907,11 @@ func runSync(ctx *Ctx) {
 			emitSync(ctx, in, res)
 		}
 	}
+	if vs := c09Variants3[ctx.Prop]; len(vs) > 0 && ctx.Idx%8 == 2 {
+		k := ctx.Idx / 8
+		in, res := runSyncVariant(seed, vs[k%len(vs)], k/len(vs))
+		emitSync(ctx, in, res)
+	}
 }
 
 func corpusSync(ctx *Ctx, op string, raw json.RawMessage) {
@@ -1905,6 +1992,8 @@ func (t *resetTransport) RoundTrip(req *http.Request) (*http.Response, error) {
 				at := ends[len(ends)-2]
 				if sp.where == 1 {
 					at = ends[0]
+				} else if sp.where == 2 {
+					at = ends[int(sp.pick*float64(len(ends)-1))%(len(ends)-1)]
 				}
 				sp.fired = true
 				resp.Body = &cutBody{r: io.NopCloser(bytes.NewReader(b)), left: at, err: sp.err}
